@@ -329,6 +329,27 @@ def sdo_kw(rng, ver, ty, full=False, markings=False):
     return kw
 
 
+def custom_props_tree(rng):
+    """a `custom_properties` dict a caller keeps and re-uses (a template): values the constructor
+    skips (None, []), falsy values it keeps (0, '', False, {}), and nested containers"""
+    pool = [("x_none", None), ("x_empty_list", []), ("x_empty_dict", {}), ("x_zero", 0), ("x_blank", ""),
+            ("x_false", False), ("x_nested", {"a": [1, {"b": [2]}]}), ("x_list", ["p", ["q"]]), ("x_text", "t")]
+    picks = rng.sample(pool, rng.randint(2, 6))
+    if rng.random() < 0.7 and not any(k in ("x_none", "x_empty_list") for k, _ in picks):
+        picks.append(rng.choice(pool[:2]))
+    return dict(picks)
+
+
+def with_skipped(rng, kw):
+    """ordinary keyword arguments given as None / [] (the constructor treats them as absent)"""
+    kw = dict(kw)
+    for name in rng.sample(["description", "labels", "external_references", "created_by_ref", "confidence", "lang"],
+                           rng.randint(0, 2)):
+        if name not in kw:
+            kw[name] = rng.choice([None, []])
+    return kw
+
+
 def cls_name(ver, cn):
     return ("v21." if ver == "2.1" else "v20.") + cn
 
@@ -360,7 +381,12 @@ def sc_extensions(rng):
     ver = pick_ver(rng)
     custom = rng.random() < 0.25
     ext = b.mk(ext_tree(rng, ver, custom))
-    kw = b.mk(file_kw(rng, ver, Ref(ext)))
+    fk = file_kw(rng, ver, Ref(ext))
+    if rng.random() < 0.25:
+        fk["custom_properties"] = Ref(b.mk(custom_props_tree(rng)))
+        if rng.random() < 0.5:
+            fk["mime_type"] = None
+    kw = b.mk(fk)
     opts = {"allow_custom": True} if custom else {}
     o1 = b.add(op="construct", cls=cls_name(ver, "File"), kw=kw, **opts)
     o2 = b.add(op="construct", cls=cls_name(ver, "File"), kw=kw, **opts)      # same inputs again
@@ -430,11 +456,22 @@ def sc_sdo(rng):
     b = B(rng, "sdo")
     ver = pick_ver(rng)
     ty = rng.choice(["identity", "indicator", "malware"])
-    kw = b.mk(share_members(b, sdo_kw(rng, ver, ty)))
+    kwt = with_skipped(rng, sdo_kw(rng, ver, ty)) if rng.random() < 0.4 else sdo_kw(rng, ver, ty)
+    fullt = sdo_kw(rng, ver, ty, full=True)
+    cp = None
+    if rng.random() < 0.45:
+        cp = b.mk(custom_props_tree(rng))              # one template dict, used by every construction below
+        kwt["custom_properties"] = Ref(cp)
+        if rng.random() < 0.7:
+            fullt["custom_properties"] = Ref(cp)
+    kw = b.mk(share_members(b, kwt))
     o1 = b.add(op="construct", cls=cls_name(ver, CLS[ty]), kw=kw)
     b.add(op="construct", cls=cls_name(ver, CLS[ty]), kw=kw)
-    full = b.mk(share_members(b, sdo_kw(rng, ver, ty, full=True)))
-    p1 = b.add(op="parse", arg=full, version=rng.choice([None, ver]))
+    if cp is not None and rng.random() < 0.5:
+        ty2 = rng.choice(["identity", "malware"])
+        b.add(op="construct", cls=cls_name(ver, CLS[ty2]), kw=b.mk(dict(sdo_kw(rng, ver, ty2), custom_properties=Ref(cp))))
+    full = b.mk(share_members(b, fullt))
+    p1 = b.add(op="parse", arg=full, version=rng.choice([None, ver]), **({"allow_custom": True} if "custom_properties" in fullt else {}))
     r = rng.random()
     if r < 0.4:
         nk = {"labels": Ref(b.mk(["n1", "n2"]))} if ty == "identity" or ver == "2.1" else {"description": "new"}
@@ -867,6 +904,7 @@ def sc_custom_types(rng):
         ext["pdf-ext"] = Ref(sub)                                # a value that already is an extension object
     e = b.mk(ext)
     names = rng.sample(["VerifObj", "VerifObj2", "VerifSco", "VerifPlain"], rng.randint(2, 3))
+    cpt = b.mk(custom_props_tree(rng)) if rng.random() < 0.6 else None
     objs = []
     for n in names:
         kw = {"name": "n%d" % rng.randint(0, 9)}
@@ -876,6 +914,8 @@ def sc_custom_types(rng):
             kw["meta"] = Ref(b.mk({"k": "v"}))
         if rng.random() < 0.85:
             kw["extensions"] = Ref(e)
+        if rng.random() < 0.3:
+            kw["custom_properties"] = Ref(cpt) if cpt is not None else None
         k = b.mk(kw)
         objs.append(b.add(op="construct", cls="custom." + n, kw=k, allow_custom=True))
         if rng.random() < 0.4:
